@@ -229,6 +229,13 @@ def gen_cases(rng, thorough: bool) -> list:
         for ty in D + [None]:
             for val in R:
                 add(sel, {"kind": "identity", "out_type": ty}, {"names": ["output"], "vals": [val]})
+    # (1b) zero-length dimensions: fault-free types with an exact 0 dimension (and their neighbours), the ill-typed-array
+    # fault enumerated PER DIMENSION (one extent changed: 0 -> k, k -> 0, k -> k+-1; rank +-1), right element type
+    for sel in sels:
+        for decl in L.ZERO_DECLS:
+            for dt in (("i64", "str") if len(decl) <= 2 else ("i64",)):
+                for val in L.dim_faults(decl, dt):
+                    add(sel, {"kind": "identity", "out_type": L.T(dt, decl)}, {"names": ["output"], "vals": [val]})
     # (2) naming faults on a single-output node
     for sel in sels:
         for ty in [D[0], D[4], D[5], None]:
@@ -251,6 +258,17 @@ def gen_cases(rng, thorough: bool) -> list:
                 add(sel, {"kind": "identity", "out_type": D[0]}, {"raise": {"isExc": True, "id": i}}, at)
             for i in range(len(L.BASE_EXC_CLASSES)):
                 add(sel, {"kind": "identity", "out_type": D[0]}, {"raise": {"isExc": False, "id": i}}, at)
+    # (3b) exception VALUES, not only classes: no-argument instances, empty / whitespace / multi-line / very long / non-ASCII
+    # messages, format directives, non-string args, subclasses with required constructor args, __str__ that raises or
+    # returns "" - at session construction and at run, both backends, scripted Identity, a real multi-output operator and
+    # an inlined model
+    for sel in sels:
+        for at in ("init", "run"):
+            for v in range(len(L.EXC_VALUES)):
+                for c in L.EXC_VALUE_CLASSES:
+                    add(sel, {"kind": "identity", "out_type": D[0]}, {"raise": {"isExc": True, "id": L.EXC_CLASSES.index(c), "val": v}}, at)
+                for node in ({"kind": "real", "op": "topk"}, {"kind": "inline0", "input": "const"}, {"kind": "inline", "input": "const"}):
+                    add(sel, node, {"raise": {"isExc": True, "id": v % 4, "val": v}}, at)
     # (4) skip conditions: valueless / untyped input, propagation off
     good = {"names": ["output"], "vals": [R[0]]}
     for sel in sels + ["none"]:
